@@ -197,6 +197,23 @@ class _Vec:
                             z3.If(a.null, b.kf, a.kf) if not (z3.is_false(a.kf) and z3.is_false(b.kf)) else FALSE))
         return self._like(out)
 
+    def mask(self, cond, other=None):
+        """Series.mask(cond, other): other where cond is True, else self (positional; cond/other are same-length vectors or scalars)"""
+        if other is None:
+            other = null_cell("f")
+        for o in (cond, other):
+            if isinstance(o, _Vec) and len(o) != len(self):
+                raise Unmodelled("mask shape")
+        return self._like(_elementwise(_where, cond, other, self).cells)
+
+    def where(self, cond, other=None):
+        if other is None:
+            other = null_cell("f")
+        for o in (cond, other):
+            if isinstance(o, _Vec) and len(o) != len(self):
+                raise Unmodelled("where shape")
+        return self._like(_elementwise(_where, cond, self, other).cells)
+
     def map(self, value_map, na_action=None):
         if not isinstance(value_map, dict):
             raise Unmodelled("Series.map with non-dict")
@@ -596,7 +613,7 @@ def np_isnan(a):
 
 
 def np_isinf(a):
-    return _elementwise(lambda c: Cell(FALSE, FALSE, "b", c.dc, c.kf), a)
+    return _elementwise(lambda c: Cell(FALSE, C.inf_formula(c), "b", c.dc, c.kf), a)
 
 
 def np_any(a):
@@ -691,6 +708,17 @@ def make_numpy():
     # type objects the real code mentions (data_algebra.util type tables are not used through the shim)
     for t in ("int64", "float64", "bool_", "str_", "generic", "ndarray", "number", "integer", "floating"):
         setattr(m, t, getattr(real_np, t))
+
+    def _stub(name):
+        def f(*a, **k):
+            raise Unmodelled(f"numpy.{name}")
+
+        return f
+
+    # every other numpy function exists (the executor falls back to numpy.__dict__[op_name]) but is outside the model
+    for name in dir(real_np):
+        if not name.startswith("_") and not hasattr(m, name) and callable(getattr(real_np, name, None)) and not isinstance(getattr(real_np, name), type):
+            setattr(m, name, _stub(name))
     return m
 
 
